@@ -29,7 +29,7 @@ CHECK_DEADLOCK FALSE
 """
 DUMP_CFG = 'SPECIFICATION Spec\nINVARIANT Dump\nCHECK_DEADLOCK FALSE\n'
 WORKERS = int(os.environ.get('VERIF_WORKERS', '16'))
-ANALYSIS_TIMEOUT_S = 5.0     # the fixed point of nested tuple types (x = (x, 1) in a loop) does not terminate
+ANALYSIS_TIMEOUT_S = 2.0     # the fixed point of nested tuple types (x = (x, 1) in a loop) does not terminate
 
 TIERS = {
     # fam_full: exhaustive family sizes; fam_sample: (size, how many sampled); rnd: (count, statement budget)
@@ -173,16 +173,19 @@ def export_all(trees, tables, procs):
         return [_export_one(t) for t in trees]
     ctx = multiprocessing.get_context('fork')
     with ctx.Pool(procs, initializer=_export_init, initargs=(tables,)) as pool:
-        return pool.map(_export_one, trees, chunksize=max(1, len(trees) // (procs * 8)))
+        try:
+            return pool.map_async(_export_one, trees, chunksize=max(1, len(trees) // (procs * 8))).get(timeout=900)
+        except multiprocessing.TimeoutError:
+            raise common.MachineryError('export of %d programs did not finish within 900 s' % len(trees))
 
 
 # ------------------------------------------------------------------------------------------------
 # replay (CPython) - parallel
 # ------------------------------------------------------------------------------------------------
 def _replay_chunk(args):
-    progs, terms = args
+    progs, has, terms = args
     bad = []
-    n = 0
+    n = checked = calls = 0
     codes = {}
     for t in terms:
         if t['out']['k'] not in ('ret', 'exc'):
@@ -193,6 +196,10 @@ def _replay_chunk(args):
             codes[pid] = R.compile_program(p)
         ev, out = R.run(codes[pid], p, t['dec'])
         n += 1
+        h = has[pid]
+        for o, _ in ev:
+            checked += h[o - 1]
+            calls += p['exprs'][o - 1]['kind'] == 'lcall'
         exp_out = {'k': t['out']['k'], 't': list(t['out']['t'])}
         if (len(ev), R.hash_events(ev)) != (t['evn'], t['evh']) or out != exp_out:
             d = dict(pid=pid, dec=t['dec'], spec_out=exp_out, cpython_out=out, spec_events=[t['evn'], t['evh']],
@@ -204,26 +211,29 @@ def _replay_chunk(args):
             bad.append(d)
             if len(bad) > 5:
                 break
-    return n, bad
+    return n, bad, checked, calls
 
 
-def replay_all(progs_by_pid, terms, procs):
+def replay_all(progs, claims, terms, procs):
     by_pid = {}
     for t in terms:
         by_pid.setdefault(t['pid'], []).append(t)
     pids = sorted(by_pid)
     chunks = []
     for group in common.chunks(pids, max(1, len(pids) // (procs * 4) + 1)):
-        chunks.append(({pid: progs_by_pid[pid] for pid in group}, [t for pid in group for t in by_pid[pid]]))
+        chunks.append(({pid: progs[pid] for pid in group}, {pid: [c['has'] for c in claims[pid]['types']] for pid in group},
+                       [t for pid in group for t in by_pid[pid]]))
     if procs <= 1 or len(chunks) <= 1:
         results = [_replay_chunk(c) for c in chunks]
     else:
         ctx = multiprocessing.get_context('fork')
         with ctx.Pool(procs) as pool:
-            results = pool.map(_replay_chunk, chunks)
-    n = sum(r[0] for r in results)
+            try:
+                results = pool.map_async(_replay_chunk, chunks).get(timeout=900)
+            except multiprocessing.TimeoutError:
+                raise common.MachineryError('CPython replay did not finish within 900 s')
     bad = [b for r in results for b in r[1]]
-    return n, bad
+    return sum(r[0] for r in results), bad, sum(r[2] for r in results), sum(r[3] for r in results)
 
 
 # ------------------------------------------------------------------------------------------------
@@ -310,8 +320,10 @@ class Batch:
             stats['out_' + t['out']['k']] = stats.get('out_' + t['out']['k'], 0) + 1
         if replay:
             tm = common.Timer()
-            n, bad = replay_all(dict(enumerate(progs)), terms, self.workers)
+            n, bad, checked, calls = replay_all(progs, claims, terms, self.workers)
             stats['replayed'] = n
+            stats['claims_checked_in_replayed_executions'] = checked
+            stats['local_calls_in_replayed_executions'] = calls
             stats['t_replay_s'] = tm.s()
             if bad:
                 b = bad[0]
@@ -401,57 +413,86 @@ WHAT = {
 
 
 # ------------------------------------------------------------------------------------------------
+ACTIONS = ('Enter', 'ExecSimple', 'ExecCall', 'ExecIf', 'ExecWhile', 'NextWhile', 'ExecFor', 'NextFor', 'ExecDef',
+           'ExecJump', 'EndBlock', 'EndCall', 'TooLong')
+CHUNK = 6000          # programs per TLC run (JSON tables are loaded into memory by TLC)
+
+
+def vacuity(rep, tables, tier, trees):
+    """-coverage 1 on a sub-batch: every action of the specification must have been taken."""
+    out = Batch(tables, tier, name='TypeSemCov', workers=min(WORKERS, 4)).run(trees, replay=False, coverage=True)
+    cov = out['res'].coverage
+    missing = [a for a in ACTIONS if cov.get(a, (0, 0))[0] == 0]
+    rep.set('action_coverage', {a: cov.get(a, (0, 0))[0] for a in ACTIONS})
+    if missing:
+        raise common.MachineryError('vacuity: actions never taken in the coverage run: %s' % missing)
+
+
 def run(rep):
     tier = TIERS[rep.tier]
     tables = load_tables(rep)
     tagged = programs(rep.tier, common.seed())
-    trees = [t for _, t in tagged]
+    all_trees = [t for _, t in tagged]
     batch = Batch(tables, tier)
-    out = batch.run(trees, rep=rep, replay=True)
-    st = out['stats']
-    rep.validated(st.get('replayed', 0))
-    for k, v in st.items():
+    groups = {}                       # signature -> list of (size, global tree index, source)
+    counts = {}
+    totals = {}
+    diverged = []
+    nclaims = nclosure = 0
+    for c0 in range(0, len(all_trees), CHUNK):
+        out = batch.run(all_trees[c0:c0 + CHUNK], rep=rep, replay=True)
+        for k, v in out['stats'].items():
+            totals[k] = round(totals.get(k, 0) + v, 2)
+        nclaims += sum(sum(c['has'] for c in cl['types']) for cl in out['claims'])
+        nclosure += sum(len(f) for cl in out['claims'] for f in cl['closure'])
+        diverged += out['diverged']
+        if c0 == 0:
+            n = len(out['trees'])
+            for i in (0, n // 2, n - 1):
+                rep.sample(dict(family=tagged[out['index'][i]][0], source=out['srcs'][i]))
+        seen = set()
+        for sig, k, b, t in out['findings']:
+            counts[sig] = counts.get(sig, 0) + 1
+            if (sig, k) not in seen:
+                seen.add((sig, k))
+                gi = c0 + out['index'][k]
+                groups.setdefault(sig, []).append((L.size(all_trees[gi]), gi, out['srcs'][k]))
+    rep.validated(int(totals.get('replayed', 0)))
+    for k, v in totals.items():
         rep.set(k, v)
     fams = {}
     for fam, _ in tagged:
         fams[fam] = fams.get(fam, 0) + 1
     rep.set('program_families', fams)
-    claims_checked = sum(sum(c['has'] for c in cl['types']) for cl in out['claims'])
-    rep.set('types_claims_exported', claims_checked)
-    rep.set('closure_claims_exported', sum(len(f) for cl in out['claims'] for f in cl['closure']))
-    trees = out['trees']
-    for i in (0, len(trees) // 2, len(trees) - 1):
-        rep.sample(dict(family=tagged[out['index'][i]][0], source=out['srcs'][i]))
-    # group monitor records by signature; shrink the witnesses of signatures that are not known findings
-    groups = {}
-    for sig, k, b, t in out['findings']:
-        groups.setdefault(sig, []).append((k, b, t))
-    rep.set('monitor_records', len(out['findings']))
-    rep.set('signatures', {s: len(v) for s, v in sorted(groups.items())})
-    shrink_batch = Batch(tables, tier, name='TypeSemShrink', workers=min(WORKERS, 8))
-    first = {}
-    for sig in sorted(groups):
-        ks = sorted({k for k, _, _ in groups[sig]}, key=lambda k: (L.size(trees[k]), k))
-        first[sig] = ks[0]
-    # witnesses of signatures that are not known findings are shrunk (always in the thorough tier)
+    rep.set('types_claims_exported', nclaims)
+    rep.set('closure_claims_exported', nclosure)
+    rep.set('monitor_records', sum(counts.values()))
+    rep.set('signatures', dict(sorted(counts.items())))
+    vacuity(rep, tables, tier, [t for f, t in tagged if f.startswith('rnd')][:150])
+    # witnesses of signatures that are not known findings are shrunk (in the thorough tier: all of them)
+    first = {sig: min(v) for sig, v in groups.items()}
     todo = [sig for sig in sorted(groups) if sig not in rep.known_sigs or rep.tier != 'quick']
-    small = shrink_all(shrink_batch, {sig: trees[first[sig]] for sig in todo}, 10 if rep.tier == 'quick' else 25)
+    shrink_batch = Batch(tables, tier, name='TypeSemShrink', workers=min(WORKERS, 8))
+    small = shrink_all(shrink_batch, {sig: all_trees[first[sig][1]] for sig in todo}, 10 if rep.tier == 'quick' else 25)
     wit = witnesses(Batch(tables, tier, name='TypeSemWitness', workers=2, full=True), small) if small else {}
     for sig in sorted(groups):
-        hits = groups[sig]
-        nprog = len({out['index'][k] for k, _, _ in hits})
-        if sig in small:
+        nprog = len({gi for _, gi, _ in groups[sig]})
+        if sig in wit:
             w = wit[sig]
-            w.update(programs=nprog, records=len(hits), unshrunk_source=out['srcs'][first[sig]])
+            w.update(programs=nprog, records=counts[sig], unshrunk_source=first[sig][2])
         else:
-            w = dict(source=out['srcs'][first[sig]], programs=nprog, records=len(hits))
+            w = dict(source=first[sig][2], programs=nprog, records=counts[sig])
         rep.violation(sig, WHAT.get(sig, 'a reported set of types misses the run-time type (class %s)' % sig), w)
-    if out['diverged']:
-        rep.set('analysis_diverged_example', out['diverged'][0])
+    if diverged:
+        rep.set('analysis_diverged_example', diverged[0])
     rep.assume('CPython evaluates the instrumented rendering (every occurrence wrapped in an identity function) '
                'like the plain rendering that malt analyses')
     rep.assume('external functions and arguments may return/carry any value of their declared type(s); '
-               'while loops run at most MaxTrip=%d iterations per loop instance' % tier['max_trip'])
+               'while loops run at most MaxTrip=%d iterations per loop instance; executions longer than %d steps or '
+               '%d decisions are cut (counted as out_steps)' % (tier['max_trip'], tier['max_steps'], tier['max_dec']))
+    rep.assume('the iteration order of sets of CFG nodes (arbitrary in the real code: address hashes) is pinned '
+               'by the harness to two fixed orders; the claims of both are checked')
+    rep.assume('the event sequences of specification and CPython are compared by length and a 20-bit rolling hash')
 
 
 def replay(path):
